@@ -1126,3 +1126,24 @@ Section AsciiTermination.
     apply parse_sections_fuel. lia.
   Qed.
 End AsciiTermination.
+
+(* ---- end to end: write in either format, read with Mesh::from_reader ---- *)
+
+Theorem medit_auto_binary_proof parse_f64 m :
+  wf_mesh m -> fbind (serialize_binary m) (from_reader parse_f64) = FOk (norm_bin m).
+Proof.
+  intros Hwf. pose proof (medit_bin_roundtrip_proof m Hwf) as H. unfold rw_medit_bin in H.
+  destruct (serialize_binary m) as [bytes| | |] eqn:E; try discriminate H.
+  cbn [fbind] in *. now rewrite (from_reader_binary_written parse_f64 m bytes E).
+Qed.
+
+Theorem medit_auto_ascii_proof print_f64 parse_f64 m :
+  wf_mesh_ascii m -> Forall (float_ok print_f64 parse_f64) (m_coords m) ->
+  fbind (serialize_ascii print_f64 m) (from_reader parse_f64) = FOk (norm_ascii m).
+Proof.
+  intros Hwf Hc. pose proof (medit_ascii_roundtrip_proof print_f64 parse_f64 m Hwf Hc) as H.
+  unfold rw_medit_ascii in H.
+  destruct (serialize_ascii print_f64 m) as [bytes| | |] eqn:E; try discriminate H.
+  cbn [fbind] in *. rewrite (from_reader_ascii_written print_f64 parse_f64 m bytes E); [exact H|].
+  eapply Forall_impl; [|exact Hc]. intros x [_ Hx]. exact Hx.
+Qed.
